@@ -4,6 +4,7 @@ CONSTANTS
  MaxCrash = 0
  MarkerMode = "ifbad"
  MarkerWindow = TRUE
+ MaxFault = 0
 SPECIFICATION DSpec
 CONSTRAINT HW
 POSTCONDITION Reached
